@@ -1060,6 +1060,30 @@ def op_reorder(w, ins):
     sn = w.snapshot(m)
     n = len(sn.order or [])
     fn = _reorder_fn(w, g)
+    if ins.get('restore'):
+        # the caller goes back to an order it remembered earlier (what
+        # `var_levels` returned then), after whatever happened in between
+        rem = w.remembered.get(m)
+        if rem is None or rem[0] is not g.raw:
+            return 'skip'
+        _, vl, mine = rem
+        del w.remembered[m]
+        if sorted(mine) != sorted(sn.order or []):
+            return 'skip'           # variables were declared or removed since
+        if dict(vl) != mine:
+            w.fail('view_aliased', f'the mapping `var_levels` returned earlier has changed under the caller: {dict(vl)}, was {mine}', owner_tags(w, 'C07'))
+        ok, v = call(w, fn, vl)
+        expect_ok(w, ok, v, 'C07', 'reorder(remembered order)')
+        after = w.snapshot(m).order
+        target = sorted(mine, key=mine.get)
+        if after != target:
+            w.fail('wrong_order', f'reorder(remembered order): got {after}, requested {target}', owner_tags(w, 'C07'))
+        w.stats['reorder_restore'] += 1
+        return
+    if ins.get('remember'):
+        ok, vl = call(w, lambda: g.api.var_levels)
+        expect_ok(w, ok, vl, 'C07', 'var_levels')
+        w.remembered[m] = (g.raw, vl, dict(vl))
     if ins.get('perm') is None:
         if n < 2 and not w.cfg.get('sift_tiny'):
             return 'skip'
